@@ -98,7 +98,8 @@ class NumpyExperimenter(experimenter.Experimenter):
     # Features has shape (num_trials, num_features).
     features = self._converter.to_features(suggestions)
     for idx, suggestion in enumerate(suggestions):
-      val = self.impl(features[idx])
+      # impl may hand back a one-element array (NumPy >= 2 refuses float() on it).
+      val = float(np.asarray(self.impl(features[idx])).reshape(()))
       if math.isfinite(val):
         suggestion.complete(vz.Measurement(metrics={self._metric_name: val}))
       else:
